@@ -291,6 +291,142 @@ def skeleton(body, where, mutex_alias=None):
     return ev
 
 
+TOK2 = re.compile(r"""
+   (?P<guard>std::(?:unique_lock|lock_guard)\s*<\s*std::mutex\s*>\s*(?P<gname>\w+)\s*[\({]\s*(?P<gm>_\w+)\s*[\)}])
+ | (?P<rclosed>\bif\s*\(\s*_cmdsClosed\s*\))
+ | (?P<wclosed>\b_cmdsClosed\s*=\s*(?P<wcv>true|false))
+ | (?P<push>\b_cmds\s*\.\s*push_back\s*\()
+ | (?P<swap>\b(?P<swn>\w+)\s*\.\s*swap\s*\(\s*_cmds\s*\))
+ | (?P<wake>::write\s*\(\s*_eventFd)
+ | (?P<cfd>::close\s*\(\s*_eventFd\s*\))
+ | (?P<setv>listenerReady\s*->\s*set_value\s*\(\s*(?P<sva>\w+)\s*\))
+ | (?P<ret>\breturn\s+(?P<rv>true|false)\b)
+ | (?P<reterr>\breturn\s+ListenResult::err\s*\((?=\s*TransportErrorInfo\s*\{\s*TransportError::(?P<errc>\w+)))
+ | (?P<retok>\breturn\s+ListenResult::ok\b)
+ | (?P<proc>(?<![\w.>])process\s*\(\s*\))
+ | (?P<enq>(?<![\w.>])enqueue\s*\(\s*Command::(?P<enqk>\w+)\s*\((?P<enqa>[^)]*)\))
+ | (?P<fget>\bfut\s*\.\s*get\s*\(\s*\))
+ | (?P<running>\b_running\s*\.\s*(?P<rop>load|store|compare_exchange_strong)\s*\((?P<rarg>[^)]*)\))
+ | (?P<join>\b_loop\s*\.\s*join\s*\(\s*\))
+ | (?P<doadd>\bdoAddListener\s*\()
+ | (?P<catch>\bcatch\s*\()
+ | (?P<case>\bcase\s+Cmd::(?P<casen>\w+)\s*:)
+ | (?P<open>\{) | (?P<close>\})
+""", re.X)
+
+
+def skeleton2(body, where):
+    """engine-side skeleton (tcp_engine.hpp): command queue, _cmdsClosed, listener promises"""
+    body = blank_strings(body)
+    ev = []
+    depth = 0
+    guards = []
+    for m in TOK2.finditer(body):
+        h = ",".join(sorted({g[1] for g in guards}))
+        if m.group("open"):
+            depth += 1
+        elif m.group("close"):
+            for g in [g for g in guards if g[2] == depth]:
+                ev.append(("unlock", g[1], h))
+            guards = [g for g in guards if g[2] < depth]
+            depth -= 1
+        elif m.group("guard"):
+            guards.append([m.group("gname"), m.group("gm"), depth])
+            ev.append(("lock", m.group("gm"), h))
+        elif m.group("rclosed"):
+            ev.append(("read", "_cmdsClosed", h))
+        elif m.group("wclosed"):
+            ev.append(("write", "_cmdsClosed=" + m.group("wcv"), h))
+        elif m.group("push"):
+            ev.append(("push", "_cmds", h))
+        elif m.group("swap"):
+            ev.append(("swap", m.group("swn"), h))
+        elif m.group("wake"):
+            ev.append(("wake", "_eventFd", h))
+        elif m.group("cfd"):
+            ev.append(("close", "_eventFd", h))
+        elif m.group("setv"):
+            ev.append(("set_value", m.group("sva"), h))
+        elif m.group("ret"):
+            ev.append(("return", m.group("rv"), h))
+        elif m.group("reterr"):
+            ev.append(("return", "err:" + m.group("errc"), h))
+        elif m.group("retok"):
+            ev.append(("return", "ok", h))
+        elif m.group("proc"):
+            ev.append(("call", "process", h))
+        elif m.group("enq"):
+            a = re.sub(r"\s+", "", m.group("enqa"))
+            ev.append(("enqueue", m.group("enqk") + ("+promise" if "ready" in a else ""), h))
+        elif m.group("fget"):
+            ev.append(("wait", "future", h))
+        elif m.group("running"):
+            ev.append(("running", m.group("rop") + ":" + re.sub(r"\s+", "", m.group("rarg")), h))
+        elif m.group("join"):
+            ev.append(("join", "_loop", h))
+        elif m.group("doadd"):
+            ev.append(("call", "doAddListener", h))
+        elif m.group("catch"):
+            ev.append(("catch", "", h))
+        elif m.group("case"):
+            ev.append(("case", m.group("casen"), h))
+    for g in guards:
+        ev.append(("unlock", g[1], ",".join(sorted({x[1] for x in guards}))))
+    for v in ("_cmdsClosed", "_cmds"):
+        covered = [(m.start(), m.end()) for m in TOK2.finditer(body)]
+        for m in re.finditer(r"(?<![\w])%s\b" % re.escape(v), body):
+            if not any(a <= m.start() < b for a, b in covered):
+                raise TranslateError("%s: use of %s in a shape the scanner does not know: %r"
+                                     % (where, v, re.sub(r"\s+", " ", body[max(0, m.start() - 30):m.end() + 30]).strip()))
+    return ev
+
+
+def all_method_bodies(src, sig_regex):
+    out = []
+    for m in re.finditer(sig_regex, src):
+        i = src.index("(", m.start())
+        depth = 0
+        while i < len(src):
+            if src[i] == "(":
+                depth += 1
+            elif src[i] == ")":
+                depth -= 1
+                if depth == 0:
+                    break
+            i += 1
+        mm = re.match(r"(?:\s*(?:const|noexcept|override))*\s*\{", src[i + 1:], re.S)
+        if not mm:
+            continue
+        b = i + 1 + mm.end() - 1
+        out.append(src[b + 1:cxxscan.match_brace(src, b)])
+    return out
+
+
+def engine_rows(repo):
+    tcp = read(repo, TCP)
+    rows = []
+    enq = all_method_bodies(tcp, r"\bbool\s+enqueue\s*\(")
+    if len(enq) != 2:
+        raise TranslateError("TcpEngine::enqueue: expected 2 overloads, found %d" % len(enq))
+    for k, b in enumerate(enq):
+        rows.append(("tcp.enqueue#%d" % k, skeleton2(b, "TcpEngine::enqueue#%d" % k)))
+    for name, sig in (("shutdownDrain", r"\bvoid\s+shutdownDrain\s*\("), ("process", r"\bvoid\s+process\s*\("),
+                      ("addListener", r"\bListenResult\s+addListener\s*\("), ("stop", r"\bvoid\s+stop\s*\(\s*\)\s*override")):
+        bodies = all_method_bodies(tcp, sig)
+        if len(bodies) != 1:
+            raise TranslateError("TcpEngine::%s: expected exactly one definition, found %d" % (name, len(bodies)))
+        rows.append(("tcp." + name, skeleton2(bodies[0], "TcpEngine::" + name)))
+    # nothing else may write _cmdsClosed or push/swap _cmds
+    known = "".join(enq) + "".join(all_method_bodies(tcp, r"\bvoid\s+shutdownDrain\s*\(")) + "".join(all_method_bodies(tcp, r"\bvoid\s+process\s*\("))
+    n_w = len(re.findall(r"\b_cmdsClosed\s*=", tcp))
+    n_known = len(re.findall(r"\b_cmdsClosed\s*=", known))
+    start_body = all_method_bodies(tcp, r"\bStartResult\s+start\s*\(")
+    n_start = len(re.findall(r"\b_cmdsClosed\s*=\s*false", start_body[0])) if start_body else 0
+    if n_w != n_known + n_start:
+        raise TranslateError("TcpEngine: _cmdsClosed is written in a function the models do not know (%d writes, %d known)" % (n_w, n_known + n_start))
+    return rows
+
+
 def gen(repo):
     src = read(repo, FILE)
     types = read(repo, TYPES)
@@ -328,6 +464,7 @@ def gen(repo):
             raise TranslateError("Transport::%s touches the sync/teardown state but is not a function the models know" % name)
     grm = skeleton(method_body(src, r"\bTransport::getReadMode\s*\(", "Transport::getReadMode"), "getReadMode")
     rows.append(("getReadMode", grm))
+    rows += engine_rows(repo)
     # condition variables of the layer: exactly SyncConnectOp::cv, SyncReceiveBuffer::cv, teardownCv
     ncv = len(re.findall(r"std::condition_variable\s+\w+\s*;", impl))
     if ncv != 3:
@@ -342,7 +479,7 @@ def gen(repo):
     if not m:
         raise TranslateError("TransportConfig::defaultSyncTimeout default not found")
     dflt_to = int(m.group(1))
-    t = HEADER % (FILE + ", " + TYPES)
+    t = HEADER % (FILE + ", " + TYPES + ", " + TCP)
     t += "namespace Iora.Gen.TsyncSkel\n"
     t += "/-- `TransportConfig` defaults -/\n"
     t += "def maxSyncReceiveBufferDefault : Nat := %d\n" % cxxscan.const_eval(str(max_buf)) if not isinstance(max_buf, int) else "def maxSyncReceiveBufferDefault : Nat := %d\n" % max_buf
